@@ -28,6 +28,9 @@ def contributions(ix, b):
     unknown = []
     init = []
     if acc is None:
+        folded = fold_contributions(ix, b, sym)
+        if folded is not None:
+            return folded
         return None, contribs, [("return value is not a single accumulator variable", 0)], init
     for (db, di, rv) in b.defs().get(acc, []):
         if rv.get("k") == "use" and const_int(rv["a"]) is not None:
@@ -54,6 +57,74 @@ def contributions(ix, b):
             continue
         unknown.append((str(rv.get("k")), db))
     return acc, contribs, unknown, init
+
+
+def fold_contributions(ix, b, sym):
+    """The same sum written with iterator folds: `[rows..].into_iter().fold(INIT, |acc, (kind, value)| acc.saturating_add(
+    count(kind) as i16 * value))`, nested or chained through variables.  Returns the tuple `contributions` returns, with the
+    pseudo accumulator -1, or None when the returned value is not such a chain."""
+    r = sym.local(0)
+    contribs, unknown, init = [], [], []
+    steps = 0
+    while True:
+        r = mir.strip_copies(r)
+        if r[0] == "var":
+            x = sym.expand_var(r)
+            if x == r:
+                return None
+            r = x
+            continue
+        if r[0] == "const" and isinstance(r[1], int):
+            init.append((r[1], 0))
+            break
+        if not (r[0] == "call" and isinstance(r[1], str) and r[1].endswith("::fold") and "Iterator" in r[1] and len(r[2]) == 3):
+            return None
+        it, ini, clo = r[2]
+        arrays = [z for z in walk(it) if isinstance(z, tuple) and z[0] == "agg" and z[1] == "array"]
+        if len(arrays) != 1 or not (clo[0] == "closure" and clo[1] in ix.bodies):
+            return None
+        cb = ix.bodies[clo[1]]
+        csym = mir.Sym(cb, ix)
+        cr = csym.local(0)
+        sign = None
+        if cr[0] == "call" and isinstance(cr[1], str) and len(cr[2]) == 2:
+            sign = +1 if cr[1].endswith("saturating_add") else -1 if cr[1].endswith("saturating_sub") else None
+        if sign is None or cb.arg_count != 3 or cr[2][0] != ("arg", cb.local_name(2)):
+            unknown.append((expr_str(cr)[:120], 0))
+            r = ini
+            continue
+        term = cr[2][1]
+        mul = next((x for x in walk(term) if isinstance(x, tuple) and x[0] == "bin" and x[1].startswith("Mul")), None)
+        item = cb.local_name(3)
+        ok = False
+        if mul is not None:
+            sides = [mul[2], mul[3]]
+            cnt = [s2 for s2 in sides if any(isinstance(y, tuple) and y[0] == "call" and y[1] == COUNT for y in walk(s2))]
+            val = [s2 for s2 in sides if s2 not in cnt]
+            if len(cnt) == 1 and len(val) == 1:
+                kparts = [y for y in walk(cnt[0]) if isinstance(y, tuple) and y[0] == "field" and y[1] == ("arg", item)]
+                vparts = [y for y in walk(val[0]) if isinstance(y, tuple) and y[0] == "field" and y[1] == ("arg", item)]
+                ok = bool(kparts) and bool(vparts) and all(y[2:] == ("0",) for y in kparts) and all(y[2:] == ("1",) for y in vparts)
+        if not ok:
+            unknown.append((expr_str(cr)[:120], 0))
+            r = ini
+            continue
+        rows = []
+        for el in arrays[0][3]:
+            if not (el[0] == "agg" and el[1] == "tuple" and len(el[3]) == 2):
+                return None
+            k, v = el[3]
+            if not (k[0] == "agg" and isinstance(k[1], str) and k[1].endswith("piece::Kind") and v[0] == "const"):
+                return None
+            rows.append((k[2], v[1], k[3][0]))
+        contribs.append((sign, rows, 0))
+        steps += 1
+        r = ini
+        if steps > 8:
+            return None
+    if not contribs:
+        return None
+    return -1, contribs, unknown, init
 
 
 def iter_source(e, sym):
@@ -173,10 +244,12 @@ def rule_only(ctx):
         ctx.check(not unknown, "%s:only-material-terms" % key, "the accumulator is modified only by the %d material contributions" % len(contribs), b.where(unknown[0][1] if unknown else 0),
                   bad_what="the accumulator is also modified by %s: a term outside the symmetric material sum" % [u for u, _ in unknown])
         other = []
-        for bi, t in b.calls():
-            c = strip_generics(t.get("callee") or "")
-            if not any(c.endswith(a) or c == a for a in allowed):
-                other.append((C.short(c), t["line"]))
+        allowed_here = allowed + (("::fold",) if acc == -1 else ())
+        for bb in [b] + ix.closures_of(key):
+            for bi, t in bb.calls():
+                c = strip_generics(t.get("callee") or "")
+                if not any(c.endswith(a) or c == a for a in allowed_here):
+                    other.append((C.short(c), t["line"]))
         ctx.check(not other, "%s:no-other-board-reads" % key, "evaluate calls nothing but the piece counter, Color::opposite and iterator plumbing", b.where(0),
                   bad_what="evaluate also calls %s: another input to the score that the symmetry argument does not cover" % other)
         # direct field reads of the board other than current_turn
